@@ -323,6 +323,22 @@ pub fn transcript(scn: &dyn Scenario, hist: &[Act]) -> Vec<String> {
 /// Judge one observed step: generic Spec comparison + invariants + scenario oracle.
 pub fn judge(scn: &dyn Scenario, cfg: &SpecCfg, focus: &Focus, pre: &View, obs: &StepObs, post: &View, goals: &mut BTreeSet<String>, stats: &mut (u64, u64)) -> Vec<Finding> {
     let mut f = vec![];
+    // a connection task that aborts abnormally means the command did not take
+    // effect as any property describes it
+    for (i, l) in post.life.iter().enumerate() {
+        if let Life::Panicked(msg) = l {
+            if !matches!(pre.life[i], Life::Panicked(_)) {
+                let loc = msg.rsplit(" @ ").next().unwrap_or("").rsplit('/').next().unwrap_or("").to_string();
+                f.push(Finding {
+                    sig: format!("panic:{}", loc),
+                    detail: format!("connection task {} aborted abnormally handling {:?}: {}", i, obs.act.render(), msg),
+                });
+            }
+        }
+    }
+    if !f.is_empty() {
+        return f;
+    }
     if scn.spec_applies(&obs.act) {
         let (ff, had) = check::check_step(cfg, obs, focus);
         if had {
